@@ -82,7 +82,7 @@ var (
 	//  second
 	//      YYYY-MM-DDThh:mm:ss.sTZD (eg 1997-07-16T19:20:30.45+01:00)
 	ISO8601 = regexp.MustCompile(
-		`^[0-9]{4}(-[0-9]{2}(-[0-9]{2}([ T][0-9]{2}(:[0-9]{2}){1,2}(.[0-9]{1,6})` +
+		`^[0-9]{4}(-[0-9]{2}(-[0-9]{2}([ T][0-9]{2}(:[0-9]{2}){1,2}(\.[0-9]{1,6})` +
 			`?Z?([\+-][0-9]{2}:[0-9]{2})?)?)?)?$`,
 	)
 
